@@ -3,7 +3,7 @@
     hash function standing for SHA-256 and over every iteration order of the two HashMap
     levels of the search (any function returning a permutation). *)
 From Sci Require Import Combine.Model Combine.Spec Combine.Obs Combine.Proofs Combine.ProofsEnc Combine.ProofsC19 Combine.ProofsBound
-  Combine.ProofsDecode Combine.ProofsReparse.
+  Combine.ProofsDecode Combine.ProofsReparse Combine.ProofsOrder Combine.ProofsPerm Combine.ProofsUseless.
 From Coq Require Import Permutation.
 Local Open Scope N_scope.
 
@@ -91,10 +91,9 @@ Proof.
 Qed.
 Print Assumptions outputs_reparse.
 
-(** Segments that cannot contribute are ignored.  PARTIAL: proved for segments without AS
-    entries (inserted anywhere in either list, the result is unchanged); for other
-    non-contributing segments the statement is covered by the correspondence only. *)
-Theorem useless_segment_ignored_partial :
+(** Segments without AS entries are ignored (inserted anywhere in either list, the result is
+    unchanged) -- unconditionally, for every iteration order. *)
+Theorem empty_segment_ignored :
   forall Hid Hfp ord_v ord_e src dst c1 c2 n1 n2 s,
     sg_entries s = [] ->
     combine_paths Hid Hfp ord_v ord_e src dst (c1 ++ s :: c2) (n1 ++ n2)
@@ -109,4 +108,45 @@ Proof.
   - rewrite !map_app. cbn [map]. rewrite !app_assoc.
     rewrite (add_segments_skip_empty _ (new_non_core Hid s)) by exact E. reflexivity.
 Qed.
-Print Assumptions useless_segment_ignored_partial.
+Print Assumptions empty_segment_ignored.
+
+(** Segments that cannot contribute a path are ignored without affecting the paths built from
+    the others: take ANY segment lists (no well-formedness), insert a segment [s] anywhere
+    among the core segments or anywhere among the non-core segments; if no solution of the
+    search on the larger input uses an edge of [s], then the result with [s] equals the result
+    without [s] -- for any two HashMap iteration orders.  Side conditions: [s] is not also
+    present (same kind, same content) among the other segments, and no two distinct solutions
+    of the larger search tie under the sort key ([NoTies]: with ties the order of the
+    implementation's result is unspecified in both calls). *)
+Theorem useless_segment_ignored :
+  forall Hid Hfp ov oe ov' oe' src dst c1 c2 n1 n2 s,
+    order_ok ov oe -> order_ok ov' oe' ->
+    (* as a core segment *)
+    (let L1 := map (new_core Hid) c1 in
+     let L2 := map (new_core Hid) c2 ++ map (new_non_core Hid) (n1 ++ n2) in
+     let s0 := new_core Hid s in
+     ~ In s0 (L1 ++ L2) ->
+     NoTies (bfs ord_id_v ord_id_e (graph_of (L1 ++ s0 :: L2)) dst 4 [sol_new (VAS src)]) ->
+     Forall (fun sol => uses s0 sol = false) (bfs ord_id_v ord_id_e (graph_of (L1 ++ s0 :: L2)) dst 4 [sol_new (VAS src)]) ->
+     combine_paths Hid Hfp ov oe src dst (c1 ++ s :: c2) (n1 ++ n2)
+     = combine_paths Hid Hfp ov' oe' src dst (c1 ++ c2) (n1 ++ n2))
+    /\
+    (* as a non-core segment *)
+    (let L1 := map (new_core Hid) (c1 ++ c2) ++ map (new_non_core Hid) n1 in
+     let L2 := map (new_non_core Hid) n2 in
+     let s0 := new_non_core Hid s in
+     ~ In s0 (L1 ++ L2) ->
+     NoTies (bfs ord_id_v ord_id_e (graph_of (L1 ++ s0 :: L2)) dst 4 [sol_new (VAS src)]) ->
+     Forall (fun sol => uses s0 sol = false) (bfs ord_id_v ord_id_e (graph_of (L1 ++ s0 :: L2)) dst 4 [sol_new (VAS src)]) ->
+     combine_paths Hid Hfp ov oe src dst (c1 ++ c2) (n1 ++ s :: n2)
+     = combine_paths Hid Hfp ov' oe' src dst (c1 ++ c2) (n1 ++ n2)).
+Proof.
+  intros Hid Hfp ov oe ov' oe' src dst c1 c2 n1 n2 s [Hv He] [Hv' He']. split; cbv zeta; intros Hfresh Hnt Hno.
+  - eapply (combine_without Hid Hfp ov oe ov' oe' src dst); eauto.
+    + unfold input_segments. rewrite !map_app. cbn [map]. rewrite <- !app_assoc. reflexivity.
+    + unfold input_segments. rewrite !map_app, <- !app_assoc. reflexivity.
+  - eapply (combine_without Hid Hfp ov oe ov' oe' src dst); eauto.
+    + unfold input_segments. rewrite !map_app. cbn [map]. rewrite <- !app_assoc. reflexivity.
+    + unfold input_segments. rewrite !map_app, <- !app_assoc. reflexivity.
+Qed.
+Print Assumptions useless_segment_ignored.
